@@ -25,6 +25,10 @@ pub struct Case {
     pub eval: RawCmd,
     /// Some(i): use malformed text #i instead of a well-formed instruction
     pub malformed: Option<u16>,
+    /// when the instruction names a label that has a case-differing twin (`D0` / `d0`), first
+    /// eval the same instruction on the twin: two consecutive texts that are equal up to letter case
+    #[serde(default)]
+    pub twin_first: bool,
 }
 
 pub const MALFORMED: &[&str] = &[
@@ -35,7 +39,7 @@ pub const MALFORMED: &[&str] = &[
     "add r0 r0 #16", "add r0 r0 #-17", "ldr r0 r0 #32", "ldr r0 r0 #-33", "trap x100", "trap #-1", "add r0 r0 x10000", "add r8 r0 r0", "add r0 r0 r9",
     ".fill x1", ".orig x3000", ".break", ".end", ".stringz \"a\"", ".blkw #1", ".bogus", "D0 add r0 r0 r0", "newlbl add r0 r0 r0", "add r0 r0 .fill x1",
     "@@", "12", "#1", "x3000", "r0", "\"str\"", "é", "addé r0 r0 r0", "add r0 r0 é", "add r0 r0 r0 é", "add r0 r0 #1é", "x", "#", ".", "\"unterminated",
-    "ld r0 nolabel", "st r0 NoSuchLabel", "lea r1 d0", "jsr nolabel", "ld r0 MAIN+1",
+    "ld r0 nolabel", "st r0 NoSuchLabel", "lea r1 d7", "jsr nolabel", "ld r0 MAIN+1",
     "halt", "trap x25", "HALT", "rti", "RTI", "br D0", "brnzp D0", "brz D0", "brn #1", "trap x0", "trap x1F", "trap x28", "trap xFF", "trap x26 r0",
 ];
 
@@ -82,7 +86,6 @@ pub fn judge_case(c: &Case) -> Obs {
             _ => Cmd::Move(PLoc::Mem(make_loc(&p, 0, r.b, 0, LocMode::Code)), value16(r.a, r.c)),
         });
     }
-    let eval_index = cmds.len();
     let stmt = make_eval_stmt(&p, &c.eval);
     let eval_cmd = match c.malformed {
         Some(i) => {
@@ -100,6 +103,19 @@ pub fn judge_case(c: &Case) -> Obs {
         }
         None => Cmd::Eval(stmt.clone()),
     };
+    if c.twin_first && c.malformed.is_none() && matches!(stmt.op, Op::Ld | Op::Ldi | Op::Lea | Op::St | Op::Sti) {
+        if let Operand::Label(name) = &stmt.operand {
+            let flipped: String = name.chars().map(|ch| if ch.is_ascii_uppercase() { ch.to_ascii_lowercase() } else { ch.to_ascii_uppercase() }).collect();
+            let twin = [flipped, format!("{}{}", &name[..1].to_ascii_uppercase(), name[1..].to_ascii_lowercase())].into_iter().find(|t| t != name && p.symbols.iter().any(|(n, _)| n == t));
+            if let Some(twin) = twin {
+                let mut first = stmt.clone();
+                first.operand = Operand::Label(twin);
+                cmds.push(Cmd::Eval(first));
+                obs.label("eval-after-case-twin-eval");
+            }
+        }
+    }
+    let eval_index = cmds.len();
     cmds.push(eval_cmd.clone());
     cmds.push(Cmd::Move(PLoc::Reg(3), 0x1234)); // the session must go on
     cmds.push(Cmd::Exit);
@@ -200,10 +216,11 @@ fn cases() -> impl Strategy<Value = Case> {
         raw_cmd(),
         crate::pick::opt(0.3, any::<u16>()),
         any::<bool>(),
+        any::<bool>(),
     )
-        .prop_map(|(mut spec, pre_steps, goto, setup, eval, malformed, stack)| {
+        .prop_map(|(mut spec, pre_steps, goto, setup, eval, malformed, stack, twin_first)| {
             spec.stack = stack;
-            Case { spec, pre_steps, goto, setup, eval, malformed }
+            Case { spec, pre_steps, goto, setup, eval, malformed, twin_first }
         })
 }
 
